@@ -21,8 +21,16 @@ def ROutcome (m : M) (sr : Ser) (r : RHash × Out × List Call) : Prop :=
   | .done => m = .ok (.seq [.py .none, RW sr r.1])
   | .pol Option.none => m = .ok (.seq [.py .none, RW sr r.1])
   | .pol (some p) => ∃ u, m = .ok (.seq [.polv u p true, RW sr r.1])
-  | .pols _ => False
+  | .pols l => m = .ok (.seq [.seq (l.map fun (x : Uid × Pol) => V.polv [] x.2 true), RW sr r.1])
   | e => m = .ok (.rworld sr r.1 (some e))
+
+theorem lt_int' (a b : Int) : cmpLt (.ok (.py (.int a))) (cInt b) = ofBool (Decidable.decide (a < b)) := by
+  simp only [cmpLt, cmp2, bindM, cInt, pyLt, pyCmp, asNum, numEq, numLt, liftR, Except.map, ofBool]
+  by_cases h1 : a = b
+  · subst h1; simp
+  · by_cases h2 : a < b
+    · simp [h1, h2]
+    · simp [h1, h2]
 
 theorem eq_zero_one : cmpEq (.ok (V.py (.int 1))) (cInt 0) = ofBool false ∧ cmpEq (.ok (V.py (.int 0))) (cInt 0) = ofBool true := by
   constructor <;> simp [cmpEq, cmp2, cInt, pyEq, asNum, numEq, ofBool]
@@ -63,6 +71,94 @@ theorem gen_redis_get (sr : Ser) (h : RHash) (self : V) (u : Uid) :
   | some b =>
     cases hb : b.isEmpty <;> simp [hd, hb, pairM, cNone, RW, truth, deserializeM, bindM]
 
-theorem translatedRedis_covers : translatedRedis = ["add", "get", "update", "delete"] := by decide
+/-! ### the listings: `hgetall`, `islice`, the private generator `__feed_policies` -/
+
+/-- in a dictionary (no field twice) every pair is found under its key -/
+theorem dictGet_of_mem (h : RHash) (hn : (h.map (·.1)).Nodup) : ∀ kv ∈ h, dictGet kv.1 h = some kv.2 := by
+  induction h with
+  | nil => intro kv hkv; cases hkv
+  | cons x rest ih =>
+    obtain ⟨k, v⟩ := x
+    simp only [List.map_cons, List.nodup_cons] at hn
+    intro kv hkv
+    simp only [List.mem_cons] at hkv
+    rcases hkv with rfl | hmem
+    · simp [dictGet]
+    · have hne : ¬ k = kv.1 := by
+        intro e
+        apply hn.1
+        rw [e]
+        exact List.mem_map_of_mem hmem
+      simp only [dictGet, hne, if_false]
+      exact ih hn.2 kv hmem
+
+/-- one iteration of `__feed_policies` -/
+def feedBody (data w : V) : V → List V → (List V → M) → (List V → M) → M := fun l1_uid s1 k1 b1 =>
+      (bindM (appendM (pure (stGet s1 0)) (deserializeM (rhashGetM (pure data) (pure l1_uid)) (pure w))) fun v___y =>
+      (k1 [v___y]))
+
+theorem feed_loop (sr : Ser) (h h0 : RHash) (rest : RHash) (hl : ∀ kv ∈ rest, dictGet kv.1 h = some kv.2) :
+    ∀ (acc : List V) (k : List V → M),
+      loopS (rest.map fun (x : Uid × Bytes) => V.py (.str x.1)) (feedBody (.rhash h) (RW sr h0)) [.seq acc] k =
+        k [.seq (acc ++ rest.map fun (x : Uid × Bytes) => V.polv [] (sr.deser x.2) true)] := by
+  induction rest with
+  | nil => intro acc k; simp [loopS]
+  | cons x tail ih =>
+    intro acc k
+    have hx := hl x (List.mem_cons_self)
+    have ht : ∀ kv ∈ tail, dictGet kv.1 h = some kv.2 := fun kv hkv => hl kv (List.mem_cons_of_mem _ hkv)
+    have e := ih ht (acc ++ [V.polv [] (sr.deser x.2) true]) k
+    simp only [RW] at e
+    simp only [List.map_cons, loopS, feedBody, stGet, List.getD_cons_zero, pure_ok, rhashGetM, bindM_ok, hx, deserializeM, RW,
+      appendM, e, List.append_assoc, List.singleton_append]
+
+theorem gen_redis_feed (sr : Ser) (h h0 : RHash) (hn : (h.map (·.1)).Nodup) :
+    feed_policies_RedisStorage (.rhash h) (RW sr h0) =
+      .ok (.seq ((Backends.feed sr h).map fun (x : Uid × Pol) => V.polv [] x.2 true)) := by
+  have hl := dictGet_of_mem h hn
+  have := feed_loop sr h h0 h hl [] (fun r1 => pure (stGet r1 0))
+  have e : feed_policies_RedisStorage (.rhash h) (RW sr h0) =
+      loopS (h.map fun (x : Uid × Bytes) => V.py (.str x.1)) (feedBody (.rhash h) (RW sr h0)) [.seq []]
+        (fun r1 => pure (stGet r1 0)) := rfl
+  rw [e, this]
+  simp [stGet, Backends.feed, List.map_map, Function.comp_def]
+
+theorem islice_nodup (h : RHash) (a b : Nat) (hn : (h.map (·.1)).Nodup) : ((islice h a b).map (·.1)).Nodup := by
+  unfold islice
+  rw [List.map_take, List.map_drop]
+  exact (hn.sublist (List.drop_sublist _ _)).sublist (List.take_sublist _ _)
+
+theorem gen_redis_check (sr : Ser) (h : RHash) (l o : Int) :
+    check_limit_and_offset_StorageR (.py (.int l)) (.py (.int o)) (RW sr h) =
+      if checkLimitOffset l o then .ok (.rworld sr h (some .valueError)) else .ok (.seq [.py .none, RW sr h]) := by
+  unfold check_limit_and_offset_StorageR RW checkLimitOffset
+  simp only [pure_ok, lt_int', ofBool_eq, iteM_ok, truth_bool, raiseRedisM, bindM_ok, pairM, cNone]
+  by_cases h1 : l < 0 <;> by_cases h2 : o < 0 <;> simp [h1, h2]
+
+theorem gen_redis_get_all (sr : Ser) (h : RHash) (self : V) (l o : Int) (hn : (h.map (·.1)).Nodup) :
+    ROutcome (get_all_RedisStorage self (.py (.int l)) (.py (.int o)) (RW sr h)) sr (redisStep sr h (.getAll l o)) := by
+  unfold get_all_RedisStorage ROutcome redisStep redisGetAll
+  simp only [pure_ok, bindM_ok, gen_redis_check]
+  by_cases hc : checkLimitOffset l o = true
+  · simp [hc, callProcM]
+  · have hc' : checkLimitOffset l o = false := by simpa using hc
+    have hl : 0 ≤ l := by simp [checkLimitOffset] at hc'; omega
+    have ho : 0 ≤ o := by simp [checkLimitOffset] at hc'; omega
+    have hsum : 0 ≤ l + o := by omega
+    have hf := gen_redis_feed sr (islice h o.toNat (l + o).toNat) h (islice_nodup h _ _ hn)
+    simp only [RW] at hf
+    simp [hc', callProcM, RW, hgetallM, rhashItemsM, addM, isliceM, ho, hsum, callDictM, hf, pairM]
+
+theorem gen_redis_find (sr : Ser) (h : RHash) (self q k : V) (hn : (h.map (·.1)).Nodup) :
+    find_for_inquiry_RedisStorage self q k (RW sr h) =
+      .ok (.seq [.seq ((Backends.feed sr h).map fun (x : Uid × Pol) => V.polv [] x.2 true), RW sr h]) := by
+  have hf := gen_redis_feed sr h h hn
+  simp only [RW] at hf
+  cases h with
+  | nil => simp [find_for_inquiry_RedisStorage, RW, hgetallM, pairM, cEmptyList, truth, Backends.feed]
+  | cons x rest => simp [find_for_inquiry_RedisStorage, RW, hgetallM, pairM, truth, hf]
+
+theorem translatedRedis_covers : translatedRedis =
+    ["_check_limit_and_offset", "__feed_policies", "add", "get", "update", "delete", "get_all", "find_for_inquiry"] := by decide
 
 end Vakt.GenEquiv
